@@ -217,7 +217,14 @@ func runC12(seed int64, tier string, sc *Script) map[string]any {
 		os.MkdirAll(wd2, 0o755)
 		tree := genTree(rng, filepath.Join(wd1, "data"), tier == "thorough")
 		single := []byte(fmt.Sprintf("single-file-%d", ti))
-		os.WriteFile(filepath.Join(wd1, "one.bin"), single, 0o640)
+		if ti%2 == 1 {
+			// the path handed to Add is itself a symbolic link to the file
+			os.WriteFile(filepath.Join(wd1, "one-v2.bin"), single, 0o640)
+			os.Symlink("one-v2.bin", filepath.Join(wd1, "one.bin"))
+			sc.Count("single-file:added-through-a-symlink")
+		} else {
+			os.WriteFile(filepath.Join(wd1, "one.bin"), single, 0o640)
+		}
 		dup := []byte(fmt.Sprintf("duplicate-bytes-%d", ti))
 		os.WriteFile(filepath.Join(wd1, "dup1"), dup, 0o644)
 		os.WriteFile(filepath.Join(wd1, "dup2"), dup, 0o644)
@@ -258,6 +265,9 @@ func runC12(seed int64, tier string, sc *Script) map[string]any {
 			if digest.FromBytes(tarBytes).String() != dDir.Annotations[file.AnnotationDigest] {
 				verdict = "uncompressed-digest-annotation-wrong"
 			}
+		}
+		if verdict == "ok" && (dOne.Digest != digest.FromBytes(single) || dOne.Size != int64(len(single))) {
+			verdict = fmt.Sprintf("file-descriptor-does-not-match-its-bytes(size=%d,want=%d)", dOne.Size, len(single))
 		}
 		sc.Op(verdict, "tr descriptor reproducible=%v", reproducible)
 		evals++
